@@ -357,3 +357,9 @@ def run(ctx, res):
     # the first code tokens of the program into the comment (shared with C19)
     from . import c19
     c19.rule_header(ctx, res, mm)
+    # "identifiers differing at most by the renaming": a generated name that
+    # is a keyword, a built-in or a kept name makes two identifiers collide
+    # or a name lex as a keyword (shared with C02; the writer's factory is
+    # evaluated, default and with a keep file)
+    from . import c02
+    c02.rule_factory_evaluated(ctx, res)
